@@ -11,8 +11,10 @@ THEOREMS = ['MindsVerif.Props.C20.C20_noninterference', 'MindsVerif.Props.C20.C2
 ASSUME = [
     'the theorems cover the logical structure only: calls stepping private state and reading a shared store; '
     'that parse_sql / plan_query / SqlalchemyRender calls have this structure is CHECKED on the real code by this run '
-    '(fresh lexer/parser objects per call, class-level tables hashed before/after, inputs deep-compared before/after), not proved',
-    'byte-code level interleavings are sampled (8-16 threads, switch interval 1e-6), not enumerated',
+    '(fresh lexer/parser objects per call; class-level tables incl. SQLAlchemy dialect classes hashed before/after a batch and against a '
+    'process that has made no call; every result compared with the single-thread baseline, with a sequential subprocess and, for a sample, '
+    'with the same call made as the only call of a fresh process; catalogs compared fresh vs reused), not proved',
+    'byte-code level interleavings are sampled (8-16 threads, switch interval 1e-6; cold start: 8 threads making the first call of a fresh process together), not enumerated',
     'hash randomisation: a finite set of PYTHONHASHSEED values is compared',
 ]
 
